@@ -18,7 +18,14 @@ mod resource_record_manager;
 mod simple_mdns_error;
 pub use simple_mdns_error::SimpleMdnsError;
 
+#[cfg(not(simple_dns_verif))]
 mod socket_helper;
+#[cfg(simple_dns_verif)]
+#[path = "socket_helper_sim.rs"]
+mod socket_helper;
+#[cfg(simple_dns_verif)]
+#[allow(missing_docs)]
+pub mod verif;
 
 #[cfg(feature = "async-tokio")]
 pub mod async_discovery;
